@@ -217,3 +217,13 @@ impl TlsAcceptor {
         self.inner.into_stream(tls_config).await
     }
 }
+
+/// Verification door: the private extraction step, unchanged
+#[cfg(feature = "verif")]
+pub(crate) fn verif_extract_client_random(data: &[u8]) -> crate::verif::tls::Extraction {
+    match TlsListener::extract_client_random(data) {
+        ClientRandomExtraction::Found(x) => crate::verif::tls::Extraction::Found(x),
+        ClientRandomExtraction::NeedMoreData => crate::verif::tls::Extraction::NeedMoreData,
+        ClientRandomExtraction::NotFound => crate::verif::tls::Extraction::NotFound,
+    }
+}
